@@ -32,6 +32,7 @@ func (g group) tokens() []string {
 var groupMenu = []group{
 	{"-a", "always,exit", false}, {"-a", "exit,always", false}, {"-a", "never,task", false}, {"-a", "always", false}, {"-a", "bogus,exit", false}, {"-a", "always, exit", false}, {"-a", "task", false},
 	{"-A", "always,exit", false}, {"-A", "never,user", false},
+	{"-a", "task,exit,always", false}, {"-a", "exit,always,never", false}, {"-A", "user, exclude, always", false}, {"-a", "always,exit,", false}, {"-a", "exit,exit", false}, {"-a", "always,never", false}, {"-a", ",always,exit", false},
 	{"-F", "uid=0", false}, {"-F", "path=/tmp/my file", false}, {"-F", "key=a=b", false}, {"-F", "a0&=5", false}, {"-F", "auid>=1000", false}, {"-F", "!!uid=0", false}, {"-F", "uid =0", false}, {"-F", "nofilter", false}, {"-F", "=5", false}, {"-F", "a b=c", false}, {"-F", "uid=0 gid=0", false}, {"-F", "exit!=-EPERM", false}, {"-F", "uid=", false},
 	{"-C", "uid!=euid", false}, {"-C", "uid=euid junk", false}, {"-C", "uid>=euid", false}, {"-C", "uid=euid,gid", false}, {"-C", "xx uid=euid", false}, {"-C", "uid=euid", false},
 	{"-S", "open", false}, {"-S", "open,close", false}, {"-S", "5", false}, {"-S", "all", false}, {"-S", "open close", false},
@@ -221,6 +222,10 @@ func checkLine(c *enumx.Ctx, gs []group) {
 		r, err := flags.Parse(line)
 		if err != nil {
 			c.Count("rejected", 1)
+			return
+		}
+		if r2, err2 := flags.Parse(line); err2 != nil || !reflect.DeepEqual(r, r2) {
+			c.Report("C14 parse-not-repeatable", fmt.Sprintf("flags.Parse(%q) gave %s and then (%v, %v)", line, describe(r), r2, err2), nil)
 			return
 		}
 		e := reference(gs)
